@@ -330,7 +330,7 @@ class Gen(object):
     def choose_macro(self, math):
         rng = self.rng
         names = [n for n, d in self.v.macros.items()
-                 if not (d.get('math_only') and not math) and not (d.get('text_only') and math)]
+                 if not (d.get('math_only') and not math) and not (d.get('text_only') and math) and not d.get('hidden')]
         return rng.choice(sorted(names))
 
     def macro(self, depth, math):
